@@ -814,7 +814,7 @@ func (w *world) run(tier string) (bool, interface{}) {
 		if err != nil {
 			panic(err)
 		}
-		defer h.Close()
+		defer closeSoon(h)
 		tk := &task{id: i, h: h, grant: make(chan struct{}), ign: map[uint64]bool{}}
 		if i > 0 && nChildren > 0 {
 			if c, err := startChild(w.data, w.lock); err == nil {
@@ -995,6 +995,23 @@ func (w *world) run(tier string) (bool, interface{}) {
 	}
 	return len(w.hist) >= 2, map[string]interface{}{"writers": nw, "ops": len(w.hist), "entries": len(w.lastFull), "max_message_bytes": maxSize,
 		"preemptions_inside_critical_section": preempt, "scheduler_steps": steps, "linearizability": lin}
+}
+
+// closeSoon closes a task's handle at the end of a run without waiting for it: a run
+// that ends on a verdict leaves tasks parked inside Send / GetMessages, and a Close that
+// waits for them (an implementation may well take the handle's lock in Close) must not
+// keep the verdict from being reported.
+func closeSoon(h storage.Storage) {
+	done := make(chan struct{})
+	go func() {
+		defer func() { _ = recover() }()
+		_ = h.Close()
+		close(done)
+	}()
+	select {
+	case <-done:
+	case <-time.After(200 * time.Millisecond):
+	}
 }
 
 // goroutineBlockedOnLock tells whether the goroutine waits for a sync primitive.
